@@ -38,6 +38,7 @@ def run(chk):
     chk.rule("C07.kinematics", "d/dt p = v, d/dt v = a per phase; acceleration in {+a, 0, -a}")
     chk.rule("C07.continuity", "v and p continuous at t1, t2; start conditions at t = 0")
     chk.rule("C07.goal", "with the constructor's durations: v(t3) = end velocity, p(t3) = end position")
+    chk.rule("C07.conditioning", "no f32 intermediate of a closed form has higher degree in the query time than the value it contributes to (exact cancellation of leading terms = unbounded relative rounding error)")
     chk.rule("C07.units", "accessor results carry mm/s^2, mm/s, mm on every path; no unit assertion can fail")
     sim = S.Sim(prog)
     sub = report.Check("C07", chk.tier)
@@ -56,6 +57,7 @@ def run(chk):
     t = A.sym("t.0") / 10**9
     tsym = A.sym("t.0")
     forms = {}
+    raw = {}
     key = "phases:closed-forms"
     chk.obligation(key, "per-phase kinematic identities and continuity")
     ok = True
@@ -79,6 +81,7 @@ def run(chk):
                 continue
             try:
                 forms[(ph, nm)] = A.to_sympy(val)
+                raw[(ph, nm)] = (val, fn)
             except Exception as e:
                 chk.violation("C07.kinematics", "%s:nonarith:%d:%s" % (key, ph, nm), "%s in phase %d is not arithmetic: %s" % (fn["name"], ph, e))
                 ok = False
@@ -112,6 +115,35 @@ def run(chk):
                     bad("C07.continuity", "%s@t1" % nm, "%s is discontinuous at t1: %s vs %s" % (nm, A.show(forms[(1, nm)].subs(tsym, t1)), A.show(forms[(2, nm)].subs(tsym, t1))), fn)
                 if not A.equal(forms[(2, nm)].subs(tsym, t2), forms[(3, nm)].subs(tsym, t2)):
                     bad("C07.continuity", "%s@t2" % nm, "%s is discontinuous at t2" % nm, fn)
+        # conditioning: an f32 intermediate whose degree in the query time exceeds the degree of the value it contributes to
+        # means the leading coefficients cancel exactly in real arithmetic; evaluated in f32 the absolute error grows like
+        # eps * t^k while the result grows like t^(k-1), so the relative error is unbounded over the permitted domain
+        # (t / t1 is not bounded by the quantifier): the 'tolerance proportional to epsilon times the magnitudes' clause fails
+        for (ph, nm), (val, fn) in sorted(raw.items()):
+            try:
+                dres = sp.degree(sp.expand(forms[(ph, nm)]), tsym)
+            except Exception:
+                continue
+            seen = set()
+
+            def walk(x):
+                if not isinstance(x, Term) or id(x) in seen:
+                    return
+                seen.add(id(x))
+                for y in x.args:
+                    walk(y)
+                if x.op in ("Add", "Sub", "Mul", "Div", "Neg"):
+                    try:
+                        e = sp.expand(A.to_sympy(x))
+                        d = sp.degree(e, tsym) if e.is_polynomial(tsym) else None
+                    except Exception:
+                        d = None
+                    chk.evaluated(1, nontrivial=(key, "cond", ph, nm, repr(x)[:80]))
+                    if d is not None and d > dres:
+                        bad("C07.conditioning", "cancellation:phase%d:%s" % (ph, nm),
+                            "phase %d %s: the f32 intermediate %s has degree %d in the query time but the result has degree %d: its leading terms cancel exactly, so the rounding error grows one order in t faster than the value (catastrophic cancellation for t >> t1)"
+                            % (ph, fn["name"], A.show(A.to_sympy(x)), d, dres), fn)
+            walk(val)
         chk.sample({"phase1": {"v": A.show(forms[(1, "v")]), "p": A.show(forms[(1, "p")])}})
     if ok and len(forms) == 9:
         chk.discharge(key)
